@@ -30,6 +30,10 @@ type DetCase struct {
 	// included, unlocks everything it holds: all members leave the set at once. Whatever the application answers
 	// (CometBFT would refuse an empty set), every replica must answer the same.
 	Exodus bool `json:"exodus,omitempty"`
+	// Future: after the history one more block is executed (not committed) whose payload timestamp lies 2 s ahead of
+	// the wall clock when the primary executes it; the replicas execute it 2.5 s later (nodes with skewed clocks accept
+	// and later re-execute such a block): the answers must not depend on the wall clock.
+	Future bool `json:"future,omitempty"`
 }
 
 type detReplica struct {
@@ -228,6 +232,31 @@ func runDetCase(c DetCase) Outcome {
 		}
 		o.Evals++
 	}
+	if c.Future && !c.Exodus {
+		ts := uint64(time.Now().Unix()) + 2
+		blk, txs, err := w.sim.Begin(world.StepOpts{DT: time.Second, Proposer: -1, Eth: world.EthBlockOpts{Timestamp: ts}})
+		if err == nil {
+			req := blk.FinalizeReq(txs, w.sim.Chain.NextVals.Hash())
+			resp, err := w.sim.Node.Finalize(req)
+			time.Sleep(2500 * time.Millisecond)
+			for ri, r := range reps {
+				rr, rerr := r.node.Finalize(req)
+				what := fmt.Sprintf("block with a payload timestamp ahead of the clock, replica %d (executed 2.5 s later)", ri)
+				if (err == nil) != (rerr == nil) {
+					o.Fail = failf("same-outcome", "replica-finalize-failed", "%s: primary error %v, replica error %v", what, err, rerr)
+					return o
+				}
+				if err == nil {
+					if fl := compareResponses(resp, rr, what); fl != nil {
+						o.Fail = fl
+						return o
+					}
+				}
+			}
+			o.Classes = append(o.Classes, "future-timestamp-block")
+			o.NonTrivial = true
+		}
+	}
 	if c.Exodus && w.obs != nil {
 		lr := goattypes.LockingRequests{}
 		id := uint64(1_000_000)
@@ -276,7 +305,7 @@ func runDetCase(c DetCase) Outcome {
 }
 
 func genDetCase(t *rapid.T) DetCase {
-	c := DetCase{Lock: genLockCase("C07", 30)(t), Replicas: rapid.IntRange(0, 1).Draw(t, "replicas"), OnDisk: rapid.IntRange(0, 3).Draw(t, "onDisk") == 0, Exodus: rapid.IntRange(0, 2).Draw(t, "exodus") == 0}
+	c := DetCase{Lock: genLockCase("C07", 30)(t), Replicas: rapid.IntRange(0, 1).Draw(t, "replicas"), OnDisk: rapid.IntRange(0, 3).Draw(t, "onDisk") == 0, Exodus: rapid.IntRange(0, 2).Draw(t, "exodus") == 0, Future: rapid.IntRange(0, 15).Draw(t, "future") == 0}
 	// more multi-validator lock batches with one failing entry
 	for i := range c.Lock.Blocks {
 		c.Modes = append(c.Modes, rapid.SampledFrom([]int{0, 0, 0, 1, 2, 3, 4}).Draw(t, "mode"))
@@ -298,7 +327,7 @@ func TestC07_Determinism(t *testing.T) {
 	RunProp(t, Prop[DetCase]{
 		ID: "C07", Name: "determinism", Quick: 400, Thor: 8000,
 		Gen: genDetCase, Run: runDetCase,
-		Rule: "kitchen-sink locking-world histories (all request kinds incl. adversarial ones: unknown validator/token, multi-validator lock batches where one entry fails, dust, several validators leaving, absences, evidence) executed on a primary and 1-2 replicas with separate stores (one optionally on on-disk goleveldb), separate fake execution layers and other node keys; per block a replica either executes plainly, is restarted between FinalizeBlock and Commit and executes the block again, is restarted before the block, or runs under GOMAXPROCS 1 or 4; every execution of the same block must agree on app hash, per-transaction code/codespace/gas wanted/gas used/data, the set of validator updates and the engine call log; non-trivial = the block has a failing transaction, >= 2 validator updates, or a restart/re-execution/GOMAXPROCS point; evaluations count blocks; a third of the histories end with an uncommitted block in which every validator, the anchor included, unlocks everything it holds, so that all members leave the set at once: primary and replicas must give the same answer",
+		Rule: "kitchen-sink locking-world histories (all request kinds incl. adversarial ones: unknown validator/token, multi-validator lock batches where one entry fails, dust, several validators leaving, absences, evidence) executed on a primary and 1-2 replicas with separate stores (one optionally on on-disk goleveldb), separate fake execution layers and other node keys; per block a replica either executes plainly, is restarted between FinalizeBlock and Commit and executes the block again, is restarted before the block, or runs under GOMAXPROCS 1 or 4; every execution of the same block must agree on app hash, per-transaction code/codespace/gas wanted/gas used/data, the set of validator updates and the engine call log; non-trivial = the block has a failing transaction, >= 2 validator updates, or a restart/re-execution/GOMAXPROCS point; evaluations count blocks; a third of the histories end with an uncommitted block in which every validator, the anchor included, unlocks everything it holds, so that all members leave the set at once: primary and replicas must give the same answer; one history in sixteen ends with an uncommitted block whose payload timestamp is 2 s ahead of the wall clock, executed by the primary at once and by the replicas 2.5 s later",
 	})
 }
 
